@@ -324,3 +324,31 @@ End Re.
 
 (* the rebinding reports of the program *)
 Definition rebindings (o : options) (p : program) : list (rule * N) := re_stmts o [] [] p.
+
+(* ---- `set` without the Set option (RSetUnsupported): the uses of the name `set` that resolve
+   to the universal name (bound by no enclosing block, by no visible file-level binding, not
+   predeclared), when the option is off ---- *)
+Definition set_useb (W : world) (complete : list string) (u : suse) : bool :=
+  String.eqb (s_x u) "set" && negb (smem (s_x u) (w_predeclared W)) && smem (s_x u) (w_universal W) &&
+  match s_fl u with
+  | Some sofar => negb (smem (s_x u) sofar)
+  | None => negb (existsb (smem (s_x u)) (s_rel u)) && negb (smem (s_x u) complete)
+  end.
+Definition set_uses (o : options) (W : world) (p : program) : list suse :=
+  if o_set o then [] else filter (set_useb W (bound_stmts p)) (uses_prog o p).
+
+(* ---- no static rule is broken: the 30 rules of Spec.viol, no undefined use, no use of `set`
+   without the option, no rebinding at file level ---- *)
+Definition no_rule_broken (o : options) (W : world) (p : program) : Prop :=
+  viol o p = [] /\ undefined_uses o W p = [] /\ set_uses o W p = [] /\
+  (forall n, ~ In (RReassign, n) (scope_viol o W p)) /\
+  (forall n, ~ In (RLoadReassign, n) (scope_viol o W p)).
+
+(* rule r is broken at position n *)
+Definition broken (o : options) (W : world) (p : program) (r : rule) (n : N) : Prop :=
+  match r with
+  | RReassign | RLoadReassign => In (r, n) (scope_viol o W p)
+  | RUndefined => exists u, In u (undefined_uses o W p) /\ s_n u = n
+  | RSetUnsupported => exists u, In u (set_uses o W p) /\ s_n u = n
+  | _ => violates o p r n
+  end.
